@@ -20,7 +20,7 @@ RULE = (
 ASSUMPTIONS = [
     "risk parameters satisfy Aave's own validation (LTV <= LT < 1); amounts are non-negative (a negative helper answer is not requested)",
     "completeness is claimed only with 0.1% margin in value terms; exactly-at-the-limit requests may go either way",
-    "max-helper claims are made for accounts with collateral and a positive helper answer; 'beyond the limit is rejected' only for answers above 1e-9 tokens (35-digit arithmetic cannot resolve 1% of dust)",
+    "max-helper claims are made for accounts with collateral and a positive helper answer; 'beyond the limit is rejected' only for answers above 1e-9 tokens and above 200 smallest token units (the helper keeps up to one unit of slack, and 35-digit arithmetic cannot resolve 1% of dust)",
 ]
 MIN_NONTRIVIAL = {"quick": 500, "thorough": 10000}
 REQUIRED_LABELS = ["borrow.accepted", "borrow.rejected.sound", "withdraw.accepted.collateral.debt", "withdraw.rejected.hf", "flag.off.accepted", "flag.off.rejected", "helper.maxborrow.accepted", "helper.maxwithdraw.accepted", "helper.maxwithdraw.beyond.rejected", "helper.maxborrow.beyond.rejected", "hf.below1.seen"]
@@ -161,7 +161,7 @@ class Obs(aave.Observer):
                     if f == 1:
                         ctx.check(ok, "helper.maxwithdraw.rejected", lambda: f"get_max_withdraw_amount({n}) = {helper} (supplied {float(have)}) is itself rejected ({why()})", case)
                         self.labels.add("helper.maxwithdraw.accepted")
-                    elif f >= Decimal("1.01") and fr(helper) <= have * (1 + EPS) and helper > SIGNIFICANT:
+                    elif f >= Decimal("1.01") and fr(helper) <= have * (1 + EPS) and helper > max(SIGNIFICANT, 200 * Decimal(1).scaleb(-w.tok[n].decimal)):
                         ctx.check(not ok, "helper.maxwithdraw.beyond", lambda: f"{f} x get_max_withdraw_amount({n}) = {amount} is beyond the limit but accepted", case)
                         self.labels.add("helper.maxwithdraw.beyond.rejected")
 
